@@ -8,5 +8,7 @@ CONSTANTS
   Shifts = {0, 1}
   Mods = {"all", "first"}
   Probs = {"P1", "P2", "P3", "P4"}
+  Pads = {0, 35}
+  Padfs = {0, 35}
 INVARIANTS EmitCase
 CHECK_DEADLOCK FALSE
